@@ -86,6 +86,9 @@ CLAIMS = {
     "C29": ("proof", "MIR provenance and edge-dominance rules over the scope plumbing of transactions: every clock argument passed by TransactionInner / BatchInsertion derives from self.scope only; TransactionInner.scope is the scope of its TransactionArgs; transaction_args sets Some(isolation clock) exactly on the isolation arm; plus the dependency rules of C04 and the scoped-read rules of C07 re-run",
             "Finite obligation set, all discharged on every run: an edit inside an isolated transaction never looks the document up with a literal None or a foreign clock, the scope is the one the transaction was opened with, committed changes depend only on the chosen heads and the isolated chain, and reads with heads or under an open transaction go through the scoping helpers.",
             "Decides the scope plumbing (a necessary condition of 'reads show the state at those heads' and of 'changes depend only on those heads'), not the value the scoped queries return nor the state after integrate. Trusted: rustc MIR, the driver, rule code.", "DESIGN.md §9.8"),
+    "C24": ("proof", "who-may-construct and who-may-count rules over the type-checked program: TextEncoding literals only in platform_default; provenance of every TextEncoding call operand (field or parameter); raw string-unit counting (str::len, chars, encode_utf16, graphemes, bytes) only in TextEncoding::width and a reviewed set of per-encoding helpers; TextEncoding::width has one arm per variant using the matching primitive",
+            "Finite obligation set, all discharged on every run: no code path hardcodes an encoding, every width / seek / length computation receives the document's encoding, and no function outside the reviewed set counts string units itself.",
+            "Decides the 'one source of units' discipline — a necessary condition of 'all indexes are measured in the document's encoding' — not the correctness of the widths stored in the text index through edits and merges (runtime values). Trusted: rustc MIR, the driver, rule code, the reviewed helper list.", "DESIGN.md §9.9"),
     "C03": ("other", "the error-after-mutation analysis of C06 restricted to the editing calls C03 lists, plus agreement of the op set's Action->ObjType table with the make-actions the encoder writes",
             "For put, put_object, insert, insert_object, delete, increment, splice, splice_text, mark, unmark, split_block, join_block: every (mutation, later error) pair in the functions they reach is discharged, reviewed or a known finding; and every object kind put_object can create is one the op set registers.",
             "Decides only the last sentence of C03 (an invalid call changes nothing) and the object-registration clause; the sequential effect itself is runtime-valued. Known finding: ObjType::Table objects are never registered (put_object returns an unusable id).", "DESIGN.md §3 C03"),
